@@ -361,6 +361,18 @@ def gen_rule_cases(thorough, rnd, max_matchers):
             cases.append(rule_case(("obj", [(OPTION, ("t",))] + members), paths[:4]))
             cases.append(rule_case(("obj", members + [(OPTION, ("f",))]), paths[:4]))
             cases.append(rule_case(("obj", members + [(OPTION, ("t",)), (OPTION, ("t",))]), paths[:4]))
+    # long containsAllOf operand lists (the operand count is independent of the matcher maximum): all but the k-th operand occur
+    # in the path, so every single operand is decisive; plus a wrongly typed operand at every late index
+    for n in (1, 2, max_matchers - 1, max_matchers, max_matchers + 1, max_matchers + 2, 2 * max_matchers, 31, 32, 33):
+        ops = [b"%c%d." % (97 + (i % 26), i) for i in range(n)]
+        full = b"".join(ops)
+        for opts in ([], [(OPTION, ("t",))]):
+            ps = [full] + [b"".join(o for j, o in enumerate(ops) if j != k) for k in sorted(set([0, n // 2, n - 1, min(n - 1, max_matchers), min(n - 1, max_matchers - 1)]))]
+            cases.append(rule_case(("obj", [(b"containsAllOf", ("a", [("s", o) for o in ops]))] + opts), ps + [full.upper()], with_json=thorough))
+        for k in sorted(set([0, n - 1, min(n - 1, max_matchers), min(n - 1, max_matchers + 1)])):
+            bad = [("s", o) for o in ops]
+            bad[k] = ("t",)
+            cases.append(rule_case(("obj", [(b"containsAllOf", ("a", bad))]), [full], with_json=False))
     # adversarial operands inside rules (empty operand, operand longer than the path, case variants, >= 0x80)
     for kind in KINDS:
         for op in POOL[:24] + LONG[:3]:
